@@ -1254,15 +1254,17 @@ func (v *visitor) visitVariableDeclaration(c fql.IVariableDeclarationContext, sc
 		name = reserved.GetText()
 	}
 
-	err = scope.SetVariable(name)
+	// the initializer is resolved first: the variable is not visible in its own
+	// declaration (at run time it is bound only after the initializer ran)
+	if exp := ctx.Expression(); exp != nil {
+		init, err = v.visitExpression(ctx.Expression(), scope)
+	}
 
 	if err != nil {
 		return nil, err
 	}
 
-	if exp := ctx.Expression(); exp != nil {
-		init, err = v.visitExpression(ctx.Expression(), scope)
-	}
+	err = scope.SetVariable(name)
 
 	if err != nil {
 		return nil, err
